@@ -55,7 +55,17 @@ def oracle(case):
     from jsonrpclib.config import Config
 
     path = case["path"]
-    cfg = Config(version=1.0 if path == "rpc1" else 2.0)
+    # 'late': client and server exist before the classes are registered in the Config's local table, and the proxy is
+    # given its version explicitly while the shared Config keeps the other one (a pure function of the case)
+    variant = len(repr(case["value"])) % 4 if path.startswith("rpc") else 0
+    late = variant in (2, 3)
+    cfg = Config(version=2.0 if late else (1.0 if path == "rpc1" else 2.0))
+    early = {}
+    if late:
+        from vlib.loopback import DispatcherTransport, WireDispatcherTransport
+        early["disp"] = SimpleJSONRPCDispatcher(config=cfg)
+        tr = WireDispatcherTransport(cfg, early["disp"]) if variant == 3 else DispatcherTransport(cfg, early["disp"])
+        early["proxy"] = J.ServerProxy("http://loopback/", transport=tr, config=cfg, version=1.0 if path == "rpc1" else 2.0)
     b = G.Builder(case["classes"], case["enums"], cfg)
     v = b.build(case["value"])
     stats = G.spec_stats(case)
@@ -87,8 +97,8 @@ def oracle(case):
             text = J.dumps((v, 0), methodresponse=True, rpcid=1, config=cfg)
             backs.append(("loads(dumps(result (x, 0)))", J.loads(text, cfg)["result"][0]))
         else:
-            from vlib.loopback import DispatcherTransport
-            disp = SimpleJSONRPCDispatcher(config=cfg)
+            from vlib.loopback import DispatcherTransport, WireDispatcherTransport
+            disp = early.get("disp") or SimpleJSONRPCDispatcher(config=cfg)
             got = []
 
             def ping(x):
@@ -100,7 +110,10 @@ def oracle(case):
                 return [a]
             disp.register_function(ping)
             disp.register_function(ping_kw)
-            proxy = J.ServerProxy("http://loopback/", transport=DispatcherTransport(cfg, disp), config=cfg, version=cfg.version)
+            # one call in two goes through the real Transport code (bytes written and parsed back)
+            proxy = early.get("proxy") or J.ServerProxy(
+                "http://loopback/", transport=WireDispatcherTransport(cfg, disp) if variant == 1 else DispatcherTransport(cfg, disp),
+                config=cfg, version=cfg.version)
             r = proxy.ping(v)
             if len(got) != 1:
                 fail("C07/rpc-not-called", "remote callable invoked %d times" % len(got))
@@ -122,6 +135,8 @@ def oracle(case):
                  {"value": repr(v)[:300], "stats": stats})
     nt = stats["depth"] >= 2 or stats["local"] or stats["inherit"] or stats["serial"] or path.startswith("rpc")
     classes = ["path:" + path, "where:" + where, "depth:%d" % min(stats["depth"], 4)]
+    if path.startswith("rpc"):
+        classes.append("rpc:" + ["loopback", "wire", "late-registration", "late-registration+wire"][variant])
     for k in ("local", "inherit", "serial", "enum", "decimal", "bean_in_field", "homonyms", "extras"):
         if stats[k]:
             classes.append(k)
